@@ -120,15 +120,27 @@ _RE_DEPTH = re.compile(r"^The depth of the complete state graph search is (\d+)"
 _RE_SIMSTATES = re.compile(r"(\d+) states checked|The number of states generated: (\d+)")
 
 
+_SPECS_LOCK = __import__("threading").Lock()
+
+
+def ensure_specs(workdir: str) -> str:
+    """Copy /verif/specs into the scratch dir once (thread-safe: trace batches run TLC from several threads)."""
+    specdir = os.path.join(workdir, "specs")
+    with _SPECS_LOCK:
+        if not os.path.isdir(specdir):
+            tmp = specdir + ".tmp"
+            shutil.copytree(SPECS, tmp)
+            os.rename(tmp, specdir)
+    return specdir
+
+
 def run(module: str, cfg: str, *, workdir: str, mode: str = "mc", workers: Optional[int] = None,
         sim_num: int = 100, sim_depth: int = 20, seed: Optional[int] = None, env: Dict[str, str] = None,
         timeout: float = 1800, coverage: bool = False, extra_modules=(), deque: bool = False,
         dump_trace: bool = True, cfg_name: Optional[str] = None, java_heap: str = None) -> TlcResult:
     """Run TLC on specs/<module>.tla with config text `cfg` inside `workdir` (a scratch dir)."""
     # copy all specs so EXTENDS/INSTANCE resolve; tiny files
-    specdir = os.path.join(workdir, "specs")
-    if not os.path.isdir(specdir):
-        shutil.copytree(SPECS, specdir)
+    specdir = ensure_specs(workdir)
     cfg_name = cfg_name or f"{module}_{mode}_{int(time.time() * 1e6) % 10**9}.cfg"
     cfg_path = os.path.join(specdir, cfg_name)
     with open(cfg_path, "w") as f:
